@@ -222,7 +222,9 @@ func (c *Persistent) setID(id string) (err error) {
 
 	var ip netip.Addr
 	if ip, err = netip.ParseAddr(id); err == nil {
-		c.IPs = append(c.IPs, ip)
+		// Store the IPv4 form of an IPv4-mapped IPv6 address, since both denote
+		// the same host and source addresses are looked up unmapped.
+		c.IPs = append(c.IPs, ip.Unmap())
 
 		return nil
 	}
@@ -231,7 +233,7 @@ func (c *Persistent) setID(id string) (err error) {
 	if subnet, err = netip.ParsePrefix(id); err == nil {
 		// Store the network itself, so that different spellings of the same
 		// subnet, e.g. 192.168.1.1/24 and 192.168.1.0/24, are one identifier.
-		c.Subnets = append(c.Subnets, subnet.Masked())
+		c.Subnets = append(c.Subnets, unmapPrefix(subnet).Masked())
 
 		return nil
 	}
@@ -245,6 +247,19 @@ func (c *Persistent) setID(id string) (err error) {
 	c.ClientIDs = append(c.ClientIDs, strings.ToLower(id))
 
 	return nil
+}
+
+// unmapPrefix returns the IPv4 form of a subnet of IPv4-mapped IPv6 addresses,
+// e.g. 10.0.0.0/8 for ::ffff:10.0.0.0/104.  Any other subnet is returned as is.
+func unmapPrefix(p netip.Prefix) (unmapped netip.Prefix) {
+	const mappedBits = 96
+
+	addr, bits := p.Addr(), p.Bits()
+	if !addr.Is4In6() || bits < mappedBits {
+		return p
+	}
+
+	return netip.PrefixFrom(addr.Unmap(), bits-mappedBits)
 }
 
 // ValidateClientID returns an error if id is not a valid ClientID.
